@@ -247,6 +247,30 @@ func exec(f []string) string {
 			return "bad-op"
 		}
 		return parseSpend(f[1:]).runBtcd()
+	case "runv":
+		if len(f) != 7 {
+			return "bad-op"
+		}
+		v, err := strconv.Atoi(f[1])
+		if err != nil {
+			return "bad-op"
+		}
+		return parseSpend(f[2:]).runVariant(v)
+	case "valtx":
+		if len(f) != 6 {
+			return "bad-op"
+		}
+		return parseSpend(f[1:]).validateTx()
+	case "par":
+		if len(f) != 6 {
+			return "bad-op"
+		}
+		return parseSpend(f[1:]).runPar()
+	case "classify":
+		if len(f) != 2 {
+			return "bad-op"
+		}
+		return classify(unhexTok(f[1]))
 	case "core", "coretx":
 		// Bitcoin Core's recorded result; the Lean model has to reproduce it.
 		if len(f) != 7 {
